@@ -31,6 +31,7 @@ def gen_actions(rng, kind, n, LEVELS=LEVELS):
     if kind == "cat": return [Categorical(l, LEVELS) for l in rng.sample(LEVELS, n)]
     if kind == "dense": return [tuple(v) for v in rng.sample([(1, 0, 2), (0, 3, 1), (2, 2, 0), (5, 0, 0), (0, 0, 7)], n)]
     if kind == "densecat": return [(Categorical(l, LEVELS), i) for i, l in enumerate(rng.sample(LEVELS, n))]
+    if kind == "densenone": return rng.sample([(1, None), (1, 0), (2, None), (2, 0), (1, ""), (0, 3), (None, 3)], n)      # a missing or empty feature is not a zero
     if kind == "nested": return [((i, i + 1), i + 2) for i in rng.sample(range(1, 9), n)]
     if kind == "nestcat": return [[[Categorical(l, LEVELS), i], i + 1] for i, l in enumerate(rng.sample(LEVELS, n))]      # a categorical inside a nested list of a dense action
     if kind == "sparsecat": return [{"f": [Categorical(l, LEVELS), 1], "g": i + 1} for i, l in enumerate(rng.sample(LEVELS, n))]
@@ -52,7 +53,15 @@ def gen_reward(rng, actions, form):
     if form == "binary":
         i = rng.randrange(len(actions)); v = rng.choice([1, 1, 0.5])
         return BinaryReward(actions[i], v), [v if k == i else 0 for k in range(len(actions))]
-    if form == "discrete": return DiscreteReward(list(actions), vals), vals
+    if form == "discrete":
+        k = rng.random()
+        if k < 0.35:      # the reward function lists the actions in an order of its own
+            perm = list(range(len(actions))); rng.shuffle(perm)
+            return DiscreteReward([actions[i] for i in perm], [vals[i] for i in perm]), vals
+        if k < 0.5:
+            try: return DiscreteReward({a: v for a, v in reversed(list(zip(actions, vals)))}), vals      # ... or is given as a mapping
+            except TypeError: pass
+        return DiscreteReward(list(actions), vals), vals
     if form == "l1":
         y = actions[rng.randrange(len(actions))]; return L1Reward(y), [-abs(a - y) for a in actions]
     table = [(a, v) for a, v in zip(actions, vals)]
@@ -92,7 +101,7 @@ def gen_chain(rng, kind):
         if cur in ("nestcat", "sparsecat"): opts += ["repr-nest"] * 3
         if cur in ("nested", "dense", "densecat"): opts.append("flatten")
         if cur in ("int", "float", "str", "dense"): opts.append("sparsify")
-        if cur == "mixed": opts += ["sparsify"] * 3
+        if cur in ("mixed", "densenone"): opts += ["sparsify"] * 3
         if cur in ("sparse",): opts.append("densify")
         if cur in ("int", "float"): opts.append("noise")
         opts += ["finalize", "repr-none"]
@@ -137,7 +146,7 @@ def run(ctx):
     rng = ctx.rng
     reqs = []
     for _ in range(ctx.n(1500, 20000)):
-        kind = rng.choice(["int", "float", "str", "cat", "cat", "dense", "densecat", "nested", "sparse", "nestcat", "sparsecat", "mixed"])
+        kind = rng.choice(["int", "float", "str", "cat", "cat", "dense", "densecat", "nested", "sparse", "nestcat", "sparsecat", "mixed", "densenone"])
         pairs, d = gen_interaction(rng, kind, rng.choice([1, 2, 3, 4]))
         chain, cdesc = gen_chain(rng, kind)
         case = dict(d, chain=cdesc, interactions=[repr({k: (v if not callable(v) or hasattr(v, "__getstate__") else "<callable>") for k, v in it.items()})[:300] for it, _ in pairs])
@@ -149,12 +158,20 @@ def run(ctx):
             ctx.fail(["chain", "raises", errname(e), "+".join(c.split("(")[0] for c in cdesc)], "chain %s raised %s: %s on %s" % (cdesc, errname(e), str(e)[:100], case), case); continue
         if len(out) != len(pairs): ctx.fail(["chain", "count"], "chain %s changed the number of interactions" % cdesc, case); continue
         ok = True
-        for (old, exp), new in zip(pairs, out):
+        for ii, ((old, exp), new) in enumerate(zip(pairs, out)):
             A2 = list(new["actions"])
             if len(A2) != len(old["actions"]): ctx.fail(["chain", "action-count"], "actions %r -> %r" % (old["actions"], A2), case); ok = False; break
             ids2 = eq_classes(A2)
             if len(set(ids2)) != len(ids2):
-                if any("hashing" in c or "Noise" in c for c in cdesc): break      # hash collision (documented trade-off) / integer noise made two actions equal: outside the precondition
+                if any("Noise" in c for c in cdesc): break      # integer noise made two actions equal: outside the precondition
+                if any("hashing" in c for c in cdesc):      # a hash collision is the documented trade-off - when the documented hash (crc32 of the key modulo n_feats) collides
+                    import zlib
+                    try:
+                        prev = run_chain(chain[:-1], [it for it, _ in pairs])[ii]["actions"]; nf = chain[-1]._n_feats
+                        pred = [repr(sorted({zlib.crc32(str(k).encode("ascii")) % nf: v for k, v in dict(a.items()).items()}.items())) for a in prev]
+                    except Exception: pred = None
+                    if pred is None or len(set(pred)) != len(pred): break
+                    ctx.fail(["chain", "actions-collapsed", "hashing"], "distinct actions %r became equal after %s although crc32(key) %% %d keeps them apart" % (old["actions"], cdesc, nf), case); ok = False; break
                 ctx.fail(["chain", "actions-collapsed", "+".join(c.split("(")[0] for c in cdesc)], "distinct actions %r became %r" % (old["actions"], A2), case); ok = False; break
             for target in ("rewards", "feedbacks"):
                 if target not in exp: continue
